@@ -27,7 +27,9 @@ def redirect_case(draw, tier):
     max_n = 25 if tier == "quick" else 120
     t = draw(gen_tree.tree_case(min_n=1, max_n=max_n, regimes=["lattice", "coincident"]))
     n = len(t["parents"])
-    return {"tree": t, "new_root": draw(st.integers(0, n - 1)), "sort": draw(st.booleans())}
+    return {"tree": t, "new_root": draw(st.integers(0, n - 1)), "sort": draw(st.booleans()),
+            # re-root the result once more (the first result, taken with sort=False, is a tree whose root is not node 0)
+            "then": draw(st.one_of(st.none(), st.none(), st.tuples(st.integers(0, n - 1), st.booleans()).map(list)))}
 
 
 def _undirected(parents, label):
@@ -35,17 +37,33 @@ def _undirected(parents, label):
 
 
 def run_redirect(case, ctx):
-    from swcgeom.core import redirect_tree
-
     t, r, sort = case["tree"], case["new_root"], case["sort"]
     parents = t["parents"]
     n = len(parents)
     tree = gen_tree.build_tree(t)
-    before = {k: v.copy() for k, v in tree.ndata.items()}
     ctx.cls("sort" if sort else "nosort", *gen_tree.shape_classes(t))
     if r == 0:
         ctx.cls("new-root-is-old-root")
     ctx.nontrivial(n >= 4 and r != 0 and parents[r] != 0)
+    if case.get("then") and n >= 2:
+        # first hop with sort=False (rows stay in place, the root moves away from node 0), judged like any other call;
+        # its result is the input of the second hop
+        out1 = _check_redirect(ctx, t, tree, r, False)
+        t1 = dict(t, parents=[int(v) for v in out1.pid()], type=[int(v) for v in out1.type()])
+        r2, sort2 = case["then"]
+        ctx.cls("re-rooted-again-from-a-root-that-is-not-node-0" if r != 0 else "re-rooted-again")
+        _check_redirect(ctx, t1, out1, r2 % n, bool(sort2))
+        return
+    _check_redirect(ctx, t, tree, r, sort)
+
+
+def _check_redirect(ctx, t, tree, r, sort):
+    from swcgeom.core import redirect_tree
+
+    parents = t["parents"]
+    n = len(parents)
+    root0 = parents.index(-1)
+    before = {k: v.copy() for k, v in tree.ndata.items()}
     out = redirect_tree(tree, r, sort=sort)
     for k, v in before.items():
         ctx.check(np.array_equal(tree.ndata[k], v), "redirect/input-unchanged", f"column {k} modified")
@@ -73,14 +91,15 @@ def run_redirect(case, ctx):
         old = old_of_tag[tg]
         want_type = t["type"][old]
         if old == r:
-            want_type = t["type"][0]
-        elif old == 0:
+            want_type = t["type"][root0]
+        elif old == root0:
             want_type = t["type"][r]
         ctx.check(int(out.type()[new]) == want_type, "redirect/root-types-exchanged",
                   lambda: f"node tagged {tg} has type {out.type()[new]}, expected {want_type}")
         for col in ("x", "y", "z", "r", "w"):
             ctx.check(float(out.get_ndata(col)[new]) == float(np.float32(t[col][old])),
                       "redirect/attributes-kept", f"column {col} of node tagged {tg}")
+    return out
 
 
 # ----------------------------------------------------------------------------- cat_tree
@@ -120,7 +139,10 @@ def cat_case(draw, tier):
             for c, o in zip("xyz", far):
                 t[c] = [v + o for v in t[c]]
     return {"t1": t1, "t2": t2, "node1": node1, "node2": node2, "translate": translate, "far": bool(far), "near": near,
-            "cols1": draw(st.sampled_from([["tag", "w"], ["tag"]])),
+            # the first tree may hold the shared extra column in a narrower dtype (whole numbers as int32) than the second
+            "cols1": draw(st.sampled_from([["tag", "w"], ["tag"], ["tag", "w:int"]])),
+            # the junction mode given through the deprecated spelling no_move= (the opposite of translate=)
+            "legacy_kw": draw(st.integers(0, 4)) == 0,
             "cols2": draw(st.sampled_from([["tag", "w"], ["tag"], ["tag", "w", "q"]]))}
 
 
@@ -133,6 +155,8 @@ def _build(t, cols):
         kw["tag"] = np.array(t["tag"], dtype=np.int32)
     if "w" in cols:
         kw["w"] = np.array(t["w"], dtype=np.float32)
+    if "w:int" in cols:
+        kw["w"] = np.round(np.array(t["w"], dtype=np.float64)).astype(np.int32)
     if "q" in cols:
         kw["q"] = np.arange(n, dtype=np.float32) + 0.5
     return Tree(n, id=np.arange(n, dtype=np.int32), pid=np.array(t["parents"], dtype=np.int32),
@@ -165,7 +189,11 @@ def run_cat(case, ctx):
             ctx.cls("near-miss-far-from-the-origin")
     ctx.nontrivial(n1 >= 3 and n2 >= 3 and a != 0 and b != 0)
 
-    out = cat_tree(tree1, tree2, a, b, translate=translate)
+    if case.get("legacy_kw"):
+        ctx.cls("junction-mode-through-the-deprecated-keyword")
+        out = cat_tree(tree1, tree2, a, b, no_move=not translate)
+    else:
+        out = cat_tree(tree1, tree2, a, b, translate=translate)
 
     for k, v in snap1.items():
         ctx.check(np.array_equal(tree1.ndata[k], v), "cat/first-input-unchanged", f"column {k}")
@@ -174,6 +202,8 @@ def run_cat(case, ctx):
     want_n = n1 + n2 - (1 if merged else 0)
     ctx.check(len(out) == want_n, "cat/node-count", f"{len(out)} nodes, expected {want_n}")
     ctx.check(set(out.keys()) == set(snap1), "cat/columns-of-first-tree", lambda: f"{sorted(out.keys())}")
+    if "w:int" in case["cols1"] and "w" in case["cols2"]:
+        ctx.cls("shared-column-narrower-in-the-first-tree")
     reason = models.wellformed(out.id(), out.pid(), require_sorted=True)
     ctx.check(reason is None, "cat/sorted-wellformed", reason)
     tags = [int(v) for v in out.get_ndata("tag")]
@@ -198,6 +228,8 @@ def run_cat(case, ctx):
                       "cat/first-tree-attributes", f"column {col} of node tagged {tg}")
         if "w" in case["cols1"]:
             ctx.check(float(out.get_ndata("w")[new]) == t1["w"][i], "cat/first-tree-attributes", "column w")
+        if "w:int" in case["cols1"]:
+            ctx.check(float(out.get_ndata("w")[new]) == float(round(t1["w"][i])), "cat/first-tree-attributes", "column w (whole numbers)")
     # second tree: parent = next node on the way to the junction
     path_to_root = [b] + models.ancestors(p2, b)  # b .. old root
     toward = {}
@@ -231,7 +263,7 @@ def run_cat(case, ctx):
             ctx.check(float(out.get_ndata(col)[new]) == want, "cat/translation",
                       lambda: f"node tagged {tg}: {col}={out.get_ndata(col)[new]}, expected {want}")
         ctx.check(float(out.r()[new]) == float(np.float32(t2["r"][i])), "cat/second-tree-attributes", "radius")
-        if "w" in case["cols1"]:
+        if "w" in case["cols1"] or "w:int" in case["cols1"]:
             want = t2["w"][i] if "w" in case["cols2"] else 0.0
             ctx.check(float(out.get_ndata("w")[new]) == want, "cat/second-tree-attributes",
                       lambda: f"column w: {out.get_ndata('w')[new]} expected {want}")
@@ -281,11 +313,13 @@ def run_path(case, ctx):
 
 SUBCHECKS = [
     Sub("redirect", redirect_case, run_redirect, quick=1500, thorough=20000, shards_quick=4,
-        required={"sort": 200, "nosort": 200, "permuted": 200, "new-root-is-old-root": 10}),
+        required={"sort": 200, "nosort": 200, "permuted": 200, "new-root-is-old-root": 10,
+                  "re-rooted-again-from-a-root-that-is-not-node-0": 150}),
     Sub("cat", cat_case, run_cat, quick=1200, thorough=16000, shards_quick=4,
         required={"merged": 100, "linked": 100, "translate": 100, "no-translate": 100,
                   "node2-not-root": 100, "cols2:tag": 50, "cols2:tag+w+q": 50, "far-from-the-origin": 200,
-                  "junctions-a-fraction-of-a-unit-apart": 60, "near-miss-far-from-the-origin": 20}),
+                  "junctions-a-fraction-of-a-unit-apart": 60, "near-miss-far-from-the-origin": 20,
+                  "junction-mode-through-the-deprecated-keyword": 100, "shared-column-narrower-in-the-first-tree": 100}),
     Sub("path", path_case, run_path, quick=600, thorough=3000, shards_quick=2,
         required={"path-len>=3": 50, "path-types-not-a-palindrome": 50}),
 ]
